@@ -96,3 +96,19 @@ package funcs
 //@ ensures[C12] ncalls(DateFormatHandle) <= 1 && (ncalls(DateFormatHandle) == 1 ==> callarg(DateFormatHandle, 0, 0) == callres((*Task).GetKey, 0, 0).Value && callarg(DateFormatHandle, 0, 1) == funcExpr.Param[1].elem.(*ast.StringLiteral).Val && callarg(DateFormatHandle, 0, 2) == funcExpr.Param[2].elem.(*ast.StringLiteral).Val)
 //@ ensures[C12] ncalls(DateFormatHandle) == 1 && callres(DateFormatHandle, 0, 1) != nil ==> result != nil && ncalls(addKey2PtWithVal) == 0
 //@ ensures[C12] ncalls(DateFormatHandle) == 1 && callres(DateFormatHandle, 0, 1) == nil ==> strOut(callres(getKeyName, 0, 0), callres(DateFormatHandle, 0, 0))
+
+// ---- time zones ---------------------------------------------------------------------------------
+
+// no zone: the local zone; a numeric offset (+h, -h:mm ...) is looked up in the offset table and
+// is an error when the table has no row for it; any other name goes to the time library exactly
+// as written (the table is not consulted for names), and an unknown name is an error
+//@ func TimestampHandle
+//@ props C12
+//@ safety off
+//@ ensures tz == "" ==> ncalls(time.LoadLocation) == 0
+//@ ensures tz != "" && (tz[0] == 43 || tz[0] == 45) && !dom(timezoneList, tz) ==> result1 != nil && ncalls(time.LoadLocation) == 0
+//@ ensures tz != "" && (tz[0] == 43 || tz[0] == 45) && dom(timezoneList, tz) ==> ncalls(time.LoadLocation) == 1 && callarg(time.LoadLocation, 0, 0) == timezoneList[tz]
+//@ ensures tz != "" && tz[0] != 43 && tz[0] != 45 ==> ncalls(time.LoadLocation) == 1 && callarg(time.LoadLocation, 0, 0) == tz
+//@ ensures ncalls(time.LoadLocation) == 1 && callres(time.LoadLocation, 0, 1) != nil ==> result1 != nil
+//@ ensures ncalls(parseDatePattern) <= 1 && (ncalls(parseDatePattern) == 1 ==> callarg(parseDatePattern, 0, 0) == value)
+//@ ensures ncalls(parseDatePattern) == 1 && tz != "" ==> callarg(parseDatePattern, 0, 1) == callres(time.LoadLocation, 0, 0)
